@@ -1511,10 +1511,10 @@ class DNA(symbolic.Object):
       key = key.id
       return self._decision_by_id[key]
     else:
-      v = self.named_decisions.get(key, None)
-      if v is None:
-        v = self._decision_by_id[key]
-      return v
+      if key in self.named_decisions:
+        # NOTE: the value is None when the named decision point is inactive.
+        return self.named_decisions[key]
+      return self._decision_by_id[key]
 
   def get(
       self,
